@@ -548,6 +548,181 @@ func checkRingPolys(c ringPolys) ev.Outcome {
 	return o
 }
 
+// ------------------------------------------------------------------ multi-shell polygons, complements
+
+// families: up to 3 ring families about far-apart centres (distinct cube face
+// centres, radius ≤ 25°), so a polygon can have several top-level shells.
+type multiPolys struct {
+	F          []gen.RingsPolygon
+	SA, SB     [][]bool // per family, per ring: selected for A / B
+	Perm       []int    // input order of A's loops (index into the flattened selection)
+	InvA, InvB bool     // complement via Polygon.Invert()
+}
+
+func genMultiPolys(t *rapid.T) multiPolys {
+	maxN := 24
+	if ev.Thorough() {
+		maxN = 120
+	}
+	nf := rapid.IntRange(1, 3).Draw(t, "families")
+	faces := rapid.Permutation([]int{0, 1, 2, 3, 4, 5}).Draw(t, "faces")
+	c := multiPolys{}
+	total := 0
+	for f := 0; f < nf; f++ {
+		centre := s2.Point{Vector: gen.FaceUVToXYZ(faces[f], 0, 0)}
+		k := rapid.IntRange(1, 3).Draw(t, "rings")
+		rp := gen.DrawRingsAt(t, fmt.Sprintf("f%d", f), centre, k, maxN, 25*math.Pi/180)
+		c.F = append(c.F, rp)
+		var sa, sb []bool
+		for i := 0; i < k; i++ {
+			sa = append(sa, rapid.IntRange(0, 3).Draw(t, "sa") != 0)
+			sb = append(sb, rapid.Bool().Draw(t, "sb"))
+			total++
+		}
+		c.SA, c.SB = append(c.SA, sa), append(c.SB, sb)
+	}
+	c.Perm = rapid.Permutation(seq(total)).Draw(t, "perm")
+	c.InvA = rapid.IntRange(0, 2).Draw(t, "inva") == 0
+	c.InvB = rapid.IntRange(0, 2).Draw(t, "invb") == 0
+	return c
+}
+
+func checkMultiPolys(c multiPolys) ev.Outcome {
+	o := ev.Outcome{}
+	build := func(sel [][]bool, perm []int) *s2.Polygon {
+		var flat []*s2.Loop
+		for f, rp := range c.F {
+			for i, ring := range rp.Rings {
+				if f < len(sel) && i < len(sel[f]) && sel[f][i] {
+					flat = append(flat, loopOf(ring))
+				}
+			}
+		}
+		if len(flat) == 0 {
+			return nil
+		}
+		var loops []*s2.Loop
+		if perm != nil {
+			used := map[int]bool{}
+			for _, k := range perm {
+				if k < len(flat) && !used[k] {
+					used[k] = true
+					loops = append(loops, flat[k])
+				}
+			}
+			for k := range flat {
+				if !used[k] {
+					loops = append(loops, flat[k])
+				}
+			}
+		} else {
+			loops = flat
+		}
+		return s2.PolygonFromLoops(loops)
+	}
+	pa, pb := build(c.SA, c.Perm), build(c.SB, nil)
+	if pa == nil || pb == nil || pa.Validate() != nil || pb.Validate() != nil {
+		o.Skip = true
+		return o
+	}
+	shellsA := 0
+	for k := 0; k < pa.NumLoops(); k++ {
+		if _, ok := pa.Parent(k); !ok {
+			shellsA++
+		}
+	}
+	if c.InvA {
+		pa.Invert()
+	}
+	if c.InvB {
+		pb.Invert()
+	}
+	// atoms: (family f, band x) for x = 1..k_f (inside rings 0..x-1 of family f), plus the rest of the sphere.
+	memSel := func(sel [][]bool, f, x int) bool {
+		n := 0
+		for r := 0; r < x && r < len(sel[f]); r++ {
+			if sel[f][r] {
+				n++
+			}
+		}
+		return n%2 == 1
+	}
+	wantContains, wantIntersects := true, false
+	consider := func(ma, mb bool) {
+		ma, mb = ma != c.InvA, mb != c.InvB
+		if mb && !ma {
+			wantContains = false
+		}
+		if ma && mb {
+			wantIntersects = true
+		}
+	}
+	consider(false, false) // the rest of the sphere
+	for f, rp := range c.F {
+		for x := 1; x <= len(rp.Rings); x++ {
+			consider(memSel(c.SA, f, x), memSel(c.SB, f, x))
+		}
+	}
+	o.Class = fmt.Sprintf("families=%d/shellsA=%d/inv=%v,%v/contains=%v/intersects=%v", len(c.F), shellsA, c.InvA, c.InvB, wantContains, wantIntersects)
+	o.NonTrivial = shellsA >= 2 || c.InvA || c.InvB
+	// membership of the known atom centres after inversion (centre of family f is in band k_f)
+	for f, rp := range c.F {
+		k := len(rp.Rings)
+		want := memSel(c.SA, f, k) != c.InvA
+		if got := pa.ContainsPoint(rp.Center.Pt()); got != want {
+			o.Err = fmt.Sprintf("A (inverted=%v) ContainsPoint(centre of family %d)=%v, band truth=%v", c.InvA, f, got, want)
+			o.Finding = "polygon-invert"
+			return o
+		}
+	}
+	if g := pa.Contains(pb); g != wantContains {
+		o.Err = fmt.Sprintf("Polygon.Contains=%v, band truth=%v (%s)", g, wantContains, o.Class)
+		o.Finding = "polygon-relation"
+		return o
+	}
+	if g := pa.Intersects(pb); g != wantIntersects {
+		o.Err = fmt.Sprintf("Polygon.Intersects=%v, band truth=%v (%s)", g, wantIntersects, o.Class)
+		o.Finding = "polygon-relation"
+		return o
+	}
+	if g := pb.Intersects(pa); g != wantIntersects {
+		o.Err = "Polygon.Intersects not symmetric"
+		o.Finding = "polygon-relation"
+		return o
+	}
+	// laws with complements:  A∩B ⇔ ¬(A'⊇B);  A⊇B ⇔ B'⊇A'
+	ac, bc := build(c.SA, c.Perm), build(c.SB, nil)
+	if !c.InvA {
+		ac.Invert()
+	}
+	if !c.InvB {
+		bc.Invert()
+	}
+	if g := ac.Contains(pb); g == wantIntersects {
+		o.Err = fmt.Sprintf("A.Intersects(B)=%v but A'.Contains(B)=%v", wantIntersects, g)
+		o.Finding = "polygon-relation"
+		return o
+	}
+	if g := bc.Contains(ac); g != wantContains {
+		o.Err = fmt.Sprintf("A.Contains(B)=%v but B'.Contains(A')=%v", wantContains, g)
+		o.Finding = "polygon-relation"
+		return o
+	}
+	// double inversion restores the polygon's answers
+	twice := build(c.SA, c.Perm)
+	twice.Invert()
+	twice.Invert()
+	if c.InvA {
+		twice.Invert()
+	}
+	if g := twice.Contains(pb); g != wantContains {
+		o.Err = "inverting A twice changes Contains"
+		o.Finding = "polygon-invert"
+		return o
+	}
+	return o
+}
+
 func init() {
 	ev.Define("lattice_pairs", ev.Options{
 		Rule:  "two lattice rectangles on one face grid (levels 1..6; random, nested sharing sides, adjacent sharing a side, touching at a corner, equal), each optionally complemented, boundaries with a vertex at every grid point (4..256 vertices); truth = set algebra on the grid-cell atoms + the atom 'rest of the sphere'; Loop.Contains/Intersects (both orders) and single-loop Polygon. Non-trivial: both loops > 32 vertices and both indexes ≥ 2 cells.",
@@ -558,6 +733,9 @@ func init() {
 	ev.Define("disc_pairs", ev.Options{
 		Rule:  "two rings of a family of strictly nested star rings about one centre (or one ring and a far-away loop about the antipode), each optionally complemented, one with rotated start vertex; truth = band atoms from the construction. Non-trivial: both > 32 vertices and multi-cell indexes (the path the unit tests never reach).",
 		Quick: 36000, Thorough: 1000000}, genDiscPair, checkDiscPair)
+	ev.Define("polygon_multi", ev.Options{
+		Rule:  "polygons assembled from shuffled subsets of 1..3 families of strictly nested rings about distinct cube-face centres (several top-level shells, holes, islands), each polygon optionally complemented with Polygon.Invert(); truth = set algebra on band atoms + the rest of the sphere; Contains/Intersects (symmetric), the complement laws with Invert()ed copies, double inversion, ContainsPoint at the family centres. Non-trivial: A has ≥ 2 top-level shells or a polygon is complemented.",
+		Quick: 24000, Thorough: 600000}, genMultiPolys, checkMultiPolys)
 	ev.Define("polygon_rings", ev.Options{
 		Rule:  "polygons assembled by PolygonFromLoops from shuffled subsets of up to 5 (1 in 8: 15) strictly nested rings: IsHole ⇔ odd number of enclosing input loops, Parent() = next enclosing selected ring; Polygon.Contains/Intersects between two such polygons = set algebra on band atoms (shared rings are bit-identical boundaries). Non-trivial: A has ≥ 2 loops and > 32 vertices.",
 		Quick: 24000, Thorough: 750000}, genRingPolys, checkRingPolys)
